@@ -6,8 +6,8 @@
 
    Three processes:
      upstream  a scripted but otherwise free peer (NO fairness: it may stop at any point): refuses
-               the connection, or accepts and sends the segments of its script one by one, closing
-               or stalling after any of them;
+               the connection, never completes the handshake ("blackhole"), or accepts and sends the
+               segments of its script one by one, closing or stalling after any of them;
      proxy     humphrey_server::proxy::proxy_handler (P_Strip) followed by
                humphrey::http::proxy::proxy_request (P_Connect, P_Write, P_Read*, P_Map), one action
                per blocking call / per line or chunk read by Response::from_stream;
@@ -16,8 +16,8 @@
                the proxy and the clock, never for the upstream.
 
    Two descriptions of the answer are compared:
-     * Expected(segs, term)  - the property's reading of "valid HTTP/1.x response" as a predicate
-                               over the segments the upstream delivered (denotational);
+     * Acceptable(segs, term) - the property's reading of "valid HTTP/1.x response" as a predicate
+                               over the segments the upstream delivered (denotational, ProxyMsg.tla);
      * PStep(D, p, in)       - the parser of Response::from_stream, step by step, with the named
                                deviations D of the code.
    Inv_Faithful says that the step model with Dev = {} produces the expected answer.
@@ -122,7 +122,6 @@ Init ==
   /\ now = 0 /\ armed = 0
   /\ hist = <<>>
 
-ReadPcs == {"read"}
 Avail    == rpos < upos
 Eof      == ust = "closed" /\ rpos = upos
 TimerOn  == IF "NoReadTimeout" \in Dev THEN pc = "connect" ELSE TRUE
